@@ -17,6 +17,14 @@ def digest (s : String) : String :=
 structure St where
   leaves : Array String := #[]
   tree : Option (Tree String) := none
+  /-- exported arrays with their leaf counts; values, so nothing computed later can change them -/
+  exports : Array (Array String × Nat) := #[]
+
+def mkLeaves (n : Nat) (tag : String) : Array String :=
+  (Array.range n).map (fun i => hash (tag ++ "/" ++ toString i))
+
+def computeLine (t : Tree String) : String :=
+  "ok " ++ toString t.tree.size ++ " " ++ getRoot "" t ++ " " ++ digest (",".intercalate t.tree.toList)
 
 def nodesStr (p : List String) : String := if p.isEmpty then "-" else ",".intercalate p
 
@@ -35,15 +43,36 @@ def pathLine (t : Tree String) (h : String) (p : Path String) : String :=
 def step (s : St) (w : List String) : St × String :=
   match s.tree, w with
   | none, ["leaves", n, tag] =>
-    ({ s with leaves := (Array.range n.toNat!).map (fun i => hash (tag ++ "/" ++ toString i)) }, "ok")
+    ({ s with leaves := mkLeaves n.toNat! tag }, "ok")
   | none, ["dup", i, j] =>
     let i := i.toNat!; let j := j.toNat!
     if i < s.leaves.size ∧ j < s.leaves.size then ({ s with leaves := s.leaves.set! i s.leaves[j]! }, "ok") else (s, "bad-op")
   | none, ["compute"] =>
     if s.leaves.size = 0 then (s, "bad-op") else
     let t := computeTree mhash "" s.leaves.toList
-    ({ s with tree := some t },
-      "ok " ++ toString t.tree.size ++ " " ++ getRoot "" t ++ " " ++ digest (",".intercalate t.tree.toList))
+    ({ s with tree := some t }, computeLine t)
+  | some _, ["recompute", n, tag] =>
+    if n.toNat! = 0 then (s, "bad-op") else
+    let ls := mkLeaves n.toNat! tag
+    let t := computeTree mhash "" ls.toList
+    ({ s with leaves := ls, tree := some t }, computeLine t)
+  | some t, ["export"] =>
+    ({ s with exports := s.exports.push (t.tree, s.leaves.size) }, "ok " ++ toString s.exports.size)
+  | some _, ["loadcompute", k, n, tag] =>
+    match s.exports[k.toNat!]? with
+    | none => (s, "bad-op")
+    | some (arr, m) =>
+      if n.toNat! = 0 then (s, "bad-op") else
+      match setTree m arr with
+      | none => (s, "err")
+      | some _ => (s, computeLine (computeTree mhash "" (mkLeaves n.toNat! tag).toList))
+  | some _, ["checkexport", k] =>
+    match s.exports[k.toNat!]? with
+    | none => (s, "bad-op")
+    | some (arr, m) =>
+      match setTree m arr with
+      | none => (s, "err")
+      | some t2 => (s, "ok " ++ getRoot "" t2 ++ " " ++ pathsDigest t2 m)
   | some t, ["tree"] => (s, "ok " ++ ",".intercalate t.tree.toList)
   | some t, ["pathidx", i] =>
     let i := i.toNat!
